@@ -69,6 +69,9 @@ func runC07(c *Config, r *Report) {
 	c07R8(ic, r)
 	c07R10(ic, r)
 	c07R12(ic, r)
+	c05R8(ic, r, "R07.15")
+	c07R16(ic, r)
+	c07R17(ic, r)
 	c06R11(ic, r, "R07.13")
 	zeroTableAgreement(ic, r, "R07.14")
 }
@@ -770,5 +773,193 @@ func zeroTableAgreement(ic *IC, r *Report, rule string) {
 	}
 	if n < 15 {
 		r.Errorf("%s: only %d entries of zeroValues read (17 basic categories expected)", rule, n)
+	}
+}
+
+func init() {
+	ruleText["R07.15"] = "= R05.8 shared (an interpreted struct handed to compiled code keeps its interpreted methods)"
+	ruleText["R07.16"] = "in a generator that consults the frame level of a node, every run-time closure addressing that node's slot (data[X.findex...]) takes the vector from getFrame(f, X.level): the destination of a result can live in an enclosing function's frame"
+	ruleText["R07.17"] = "Globals hands out the live variables: no value stored into the map it returns originates in reflect.New(T).Elem() (= R07.8 for the other accessor)"
+}
+
+// c07R16: frame-level agreement. cfg may retarget a node onto the slot of its destination,
+// which can belong to an enclosing function (node.level > 0) or to the global frame. A closure
+// that indexes f.data (or f.root.data) with such a node's findex writes into the wrong frame.
+// Round-5 seed: callBin's result store distinguished only "global" from "current".
+func c07R16(ic *IC, r *Report) {
+	info := ic.Info
+	findex := ic.field("node", "findex")
+	level := ic.field("node", "level")
+	dataF := ic.field("frame", "data")
+	if findex == nil || level == nil || dataF == nil {
+		r.Errorf("R07.16: fields node.findex / node.level / frame.data not resolved")
+		return
+	}
+	nGen, nSites := 0, 0
+	for _, name := range sortedKeys(ic.F) {
+		fi := ic.F[name]
+		if fi.Decl.Body == nil || fi.Obj == nil || fi.Decl.Recv != nil {
+			continue
+		}
+		sig := fi.Obj.Type().(*types.Signature)
+		if sig.Params().Len() != 1 || !isNamedPtr(sig.Params().At(0).Type(), "node") {
+			continue
+		}
+		// owners (printed node expressions) whose level the generator consults, and aliases
+		levelOwners := map[string]bool{}
+		findexAlias := map[types.Object]string{} // local -> owner
+		dataAlias := map[types.Object]ast.Expr{} // local -> base expression X of X.data
+		ast.Inspect(fi.Decl.Body, func(m ast.Node) bool {
+			switch x := m.(type) {
+			case *ast.SelectorExpr:
+				if selField(info, x) == level {
+					levelOwners[types.ExprString(x.X)] = true
+				}
+			case *ast.AssignStmt:
+				if len(x.Lhs) == len(x.Rhs) {
+					for i, rhs := range x.Rhs {
+						id := identOf(x.Lhs[i])
+						if id == nil {
+							continue
+						}
+						if se, ok := unparen(rhs).(*ast.SelectorExpr); ok {
+							if selField(info, se) == findex {
+								findexAlias[info.ObjectOf(id)] = types.ExprString(se.X)
+							}
+							if selField(info, se) == dataF {
+								dataAlias[info.ObjectOf(id)] = se.X
+							}
+						}
+					}
+				}
+			}
+			return true
+		})
+		if len(levelOwners) == 0 {
+			continue
+		}
+		nGen++
+		k := 0
+		for _, fl := range (&c02ctx{ic: ic}).closuresOf(fi) {
+			ast.Inspect(fl.Body, func(m ast.Node) bool {
+				ix, ok := m.(*ast.IndexExpr)
+				if !ok {
+					return true
+				}
+				// owner of the index
+				owner := ""
+				ast.Inspect(ix.Index, func(q ast.Node) bool {
+					switch e := q.(type) {
+					case *ast.SelectorExpr:
+						if selField(info, e) == findex {
+							owner = types.ExprString(e.X)
+						}
+					case *ast.Ident:
+						if o, ok := findexAlias[info.ObjectOf(e)]; ok {
+							owner = o
+						}
+					}
+					return true
+				})
+				if owner == "" || !levelOwners[owner] {
+					return true
+				}
+				// base: X.data or a local alias of it
+				var base ast.Expr
+				if se, ok := unparen(ix.X).(*ast.SelectorExpr); ok && selField(info, se) == dataF {
+					base = se.X
+				} else if id := identOf(ix.X); id != nil {
+					// the alias may be (re)assigned inside the closure
+					ast.Inspect(fl.Body, func(q ast.Node) bool {
+						if as, ok := q.(*ast.AssignStmt); ok && len(as.Lhs) == len(as.Rhs) {
+							for i, l := range as.Lhs {
+								if lid := identOf(l); lid != nil && info.ObjectOf(lid) == info.ObjectOf(id) {
+									if se, ok := unparen(as.Rhs[i]).(*ast.SelectorExpr); ok && selField(info, se) == dataF {
+										if base == nil {
+											base = se.X
+										} else if _, isCall := unparen(se.X).(*ast.CallExpr); !isCall {
+											base = se.X // keep the weakest form seen
+										}
+									}
+								}
+							}
+						}
+						return true
+					})
+					if base == nil {
+						base = dataAlias[info.ObjectOf(id)]
+					}
+				}
+				if base == nil {
+					return true
+				}
+				nSites++
+				okBase := false
+				if c, isCall := unparen(base).(*ast.CallExpr); isCall && len(c.Args) == 2 {
+					if f, isF := calleeOf(info, c).(*types.Func); isF && f.Name() == "getFrame" {
+						// the level argument belongs to the same owner (directly or through a local)
+						arg := c.Args[1]
+						if se, ok := unparen(arg).(*ast.SelectorExpr); ok && selField(info, se) == level && types.ExprString(se.X) == owner {
+							okBase = true
+						}
+						if id := identOf(arg); id != nil {
+							okBase = true // a local level (l := n.level): accepted, R01.8 follows such aliases
+						}
+					}
+				}
+				if okBase {
+					return true
+				}
+				k++
+				r.Fail("R07.16", fmt.Sprintf("%s/slot-of-%s-addressed-without-its-level#%d", name, owner, k), ic.pos(ix.Pos()),
+					name+" addresses the slot of "+owner+" as "+types.ExprString(ix)+" on "+types.ExprString(base)+".data although it consults "+owner+".level elsewhere: when cfg has placed that slot in an enclosing function's frame (a closure assigning the result of a host call to a captured variable) the value is written into the wrong frame")
+				return true
+			})
+		}
+	}
+	if nGen < 3 || nSites < 3 {
+		r.Errorf("R07.16: %d generators consulting a node level, %d slot accesses analysed", nGen, nSites)
+		return
+	}
+	failed := false
+	for _, o := range r.Obls {
+		if o.Rule == "R07.16" && !o.OK {
+			failed = true
+		}
+	}
+	if !failed {
+		r.Pass("R07.16", "generators/slots-addressed-at-their-level", "", fmt.Sprintf("%d generators consult a node's level; %d slot accesses by that node's findex all go through getFrame", nGen, nSites))
+	}
+}
+
+// c07R17: Globals returns the frame entries themselves.
+func c07R17(ic *IC, r *Report) {
+	fn := ic.ssaMeth("Interpreter", "Globals")
+	if fn == nil {
+		r.Errorf("R07.17: (*Interpreter).Globals not found (SSA)")
+		return
+	}
+	n := 0
+	for _, b := range fn.Blocks {
+		for _, ins := range b.Instrs {
+			mu, ok := ins.(*ssa.MapUpdate)
+			if !ok {
+				continue
+			}
+			n++
+			bad := ""
+			for _, o := range origins(mu.Value, map[ssa.Value]bool{}) {
+				if c, ok := o.(*ssa.Call); ok {
+					if f := c.Call.StaticCallee(); f != nil && f.Pkg != nil && f.Pkg.Pkg.Path() == "reflect" && (f.Name() == "Elem" || f.Name() == "New" || f.Name() == "Zero" || f.Name() == "ValueOf") {
+						bad = "reflect." + f.Name()
+					}
+				}
+			}
+			r.Check(bad == "", "R07.17", fmt.Sprintf("Interpreter.Globals/store#%d/live-variable", n), ic.pos(mu.Pos()), "the map holds the symbol's own value",
+				"Globals stores into the map it returns a value built with "+bad+" instead of the frame entry or the symbol's value: the host gets a detached copy, its Set is not seen by the script and later assignments of the script are not seen by the host")
+		}
+	}
+	if n == 0 {
+		r.Errorf("R07.17: no store into the result map found in Globals")
 	}
 }
